@@ -10,18 +10,18 @@ C = {
  "C04": ("for each sampled board all 64x64x7 move values are put to is_legal and compared with the library's own generated set; exhaustive per board, boards sampled.", "trusts only the library's generator as the comparison side, as the property states; C01 ties that generator to the rules", "proptest boards x exhaustive move-value enumeration (differential is_legal vs generate_moves)"),
  "C05": ("exhaustive over every ray-subset occupancy per square and slider kind (3 settings of the other bits) and over every entry of the knight/king/pawn/ray/between/line tables and pawn-push settings, against an independent ray walker, in the magic and the PEXT build; random full occupancies on top. The 2^64 occupancy space itself is sampled.", "trusts the ray walker in harness/src/props/c05.rs as the geometric definition; independence of non-ray bits is sampled", "exhaustive enumeration + random occupancies vs independent ray walker, two back ends"),
  "C06": ("every board the harness obtains (builder on near-invalid edited states, parser on mutated strings, start constructors, play/null results, clock setters with every argument in the checked and the unchecked build) is judged by the reference structural check; every position reached by play from an accepted start must re-enter via text and builder.", REF, "proptest (edited builder states, mutated FEN strings, histories) vs structural validity predicate; round-trip for acceptance"),
- "C07": ("round trip and canonical-text checks on every visited board in both notations, pair checks (equality vs text equality), and reference-written canonical records parsed and re-formatted.", "trusts the reference formatter as the definition of the canonical record", "proptest round-trip + differential vs reference formatter"),
+ "C07": ("round trip and canonical-text checks on every visited board in both notations, pair checks (equality vs text equality), families of boards differing only in clocks or only in castling rights compared pairwise, reference-written canonical records parsed and re-formatted (incl. records and placements of maximal length); thorough tier: constructed 64-bit hash collisions (kind-only and colour-only differences) must compare unequal.", "trusts the reference formatter as the definition of the canonical record", "proptest round-trip + differential vs reference formatter"),
  "C08": ("totality (catch_unwind), structural strictness and faithful decoding on ~10^6 mutated/arbitrary strings per run through all three entry points; error attribution on labelled single-field corruptions of canonical records of accepted boards; thorough adds a coverage-guided libFuzzer campaign on the same oracle.", "trusts the tolerant reference decoder (digit 0, '+', leading zeros tolerated) and the corruption labels; no expectation for multi-defect strings", "proptest string mutation + labelled corruption generator, libFuzzer (thorough), vs reference decoder"),
- "C09": ("builder states (valid, edited, 3+ checkers) are rendered as Shredder records by the harness; build() and from_fen must agree on acceptance and give == boards; inexpressible states rejected; single-aspect corruptions must name the aspect; accepted boards round-trip through from_board.", REF, "proptest differential builder vs parser"),
- "C10": ("on every visited board the hash is compared across builder/text routes with different clocks, hash_without_ep with the EP-cleared position, and with the XOR of per-feature keys extracted through the public API; transposition pairs.", "trusts the accessor view of the board; key extraction boards must be accepted by the library", "stateful proptest + metamorphic relations (route independence) + affine key model"),
+ "C09": ("builder states (valid, edited, 3+ checkers) are rendered as Shredder records by the harness; build() and from_fen must agree on acceptance and give == boards; inexpressible states rejected; single-aspect corruptions must name the aspect (by the reference, and reference-free: the one aspect whose neutralisation makes the library accept); accepted boards round-trip through from_board, whose fields and accessors must show the board.", REF, "proptest differential builder vs parser"),
+ "C10": ("on every visited board the hash is compared across builder/text routes with different clocks, hash_without_ep with the EP-cleared position, and with the XOR of per-feature keys extracted through the public API; transposition pairs; boards parsed from mutated text; thorough tier: constructed boards whose hash is 0, 1 or all-ones.", "trusts the accessor view of the board; key extraction boards must be accepted by the library", "stateful proptest + metamorphic relations (route independence) + affine key model"),
  "C11": ("(a) exhaustive over the observable key family: every feature-difference set of size 1..4 searched for a zero XOR with pair tables, a hit counted only when two accepted boards realise it; (b) sampled direct pairs at feature distance 1..4 on realistic boards.", "(a) rests on the XOR-linearity of the hash, which C10 checks on every board it visits; single king keys and back-rank pawn keys are unobservable on accepted boards", "exhaustive key-set enumeration (meet-in-the-middle) + proptest pair generation"),
- "C12": ("status() compared with the reference on every visited board, with mate/stalemate nets and clocks 98..100 generated on purpose.", REF, "proptest vs reference model"),
- "C13": ("same_position compared with the reference FIDE identity on generated pairs (clocks, EP cleared/moved, one feature changed, unrelated), with en-passant motifs including non-pawns on the capture square; reflexive/symmetric/transitive on the generated tuples.", REF, "proptest pair generation vs reference relation"),
+ "C12": ("status() compared with the reference on every visited board, with mate/stalemate nets and clocks 98..100 generated on purpose, null-move successors, and constructed positions in which a chosen move (castling, en passant, two-square block, promotion, ...) is the only legal one.", REF, "proptest vs reference model"),
+ "C13": ("same_position compared with the reference FIDE identity on generated pairs (clocks, EP cleared/moved, one feature changed, unrelated), with en-passant motifs including non-pawns on the capture square; reflexive/symmetric/transitive on the generated tuples; thorough tier: constructed pairs of different boards with equal 64-bit hashes.", REF, "proptest pair generation vs reference relation"),
  "C14": ("null_move compared with the reference on every visited board of histories interleaving null moves; result must be == a freshly built board.", REF, "stateful proptest vs reference model"),
  "C15": ("try_play on all 64x64x7 move values per sampled board vs reference legality, atomicity on failure, agreement with play_unchecked; play() panics exactly on illegal moves (sample), in the checked build and in the build without debug assertions.", REF, "proptest boards x exhaustive move-value enumeration vs reference"),
  "C16": ("masked generation vs reference legal moves filtered by origin for 12 mask families, batch count/non-emptiness, abort contract at every call index.", REF, "proptest (board, mask, abort point) vs reference"),
- "C17": ("pure-data search over (piece, origin, destination set, consumed count) with all 1344 membership queries per batch against a model enumeration.", "trusts the model enumeration written from the property statement", "proptest vs executable model"),
- "C18": ("set-algebra laws on generated pairs of 64-bit patterns against a BTreeSet model; complete subset enumeration for masks up to 14 bits.", "trusts BTreeSet as the set model", "proptest vs set model"),
+ "C17": ("pure-data search over (piece, origin, destination set, consumed count) with all 1344 membership queries per batch against a model enumeration, and every consuming Iterator method on fresh, partially consumed and exhausted iterators against plain next() stepping.", "trusts the model enumeration written from the property statement", "proptest vs executable model"),
+ "C18": ("set-algebra laws on generated pairs of 64-bit patterns against a BTreeSet model; complete subset enumeration for masks up to 14 bits; every consuming Iterator method on fresh, partially consumed and exhausted square and subset iterators against plain next() stepping.", "trusts BTreeSet as the set model", "proptest vs set model"),
  "C19": ("exhaustive: try_offset over all 64x256x256 arguments in the overflow-checked and the unchecked build, all enum values, all 64x64x5 moves, all strings of length <= 5 over a 16-symbol alphabet; generated: mutated valid texts and arbitrary Unicode; thorough adds libFuzzer.", "string space beyond the enumerated part is sampled", "exhaustive enumeration + proptest strings + libFuzzer (thorough), two build profiles"),
  "C20": ("SAN writer compared character for character with a reference PGN-standard SAN writer for every legal move of every visited board and inverted by the reader; reader judged on component-built strings against the set of matching legal moves; UCI pair on orthodox-rights boards.", REF + "; capture mark and check suffix are treated as decoration for the reader", "proptest vs reference SAN writer; component-labelled string generator"),
 }
